@@ -657,6 +657,10 @@ def write_and_run(ctx, qn, sp):
 
 def main(tier, seed, only=None):
   units = [unit_maps(3), unit_gather("dense"), unit_gather("sparse"), ("compact-kernels", unit_compact_kernels)]
+  from checks import c06
+
+  # compact-path Hessian assembly (tile kernel, block-collective interpreter): H = cM + sum_{live quadratic rows} D J^T J
+  units.append(c06.unit_hessian(2, 2, 4, True))
   if tier == "thorough":
     units += [unit_maps(4), unit_gather("dense", 4), unit_gather("sparse", 4)]
   if only:
